@@ -162,7 +162,7 @@ def run(ctx):
                 "hub under seeded random (pre-emption probability 0.03..0.7) and PCT-style (depth 2..5) line-level "
                 "schedules; message payloads include the empty string, \"0\" and whitespace. A second stream runs "
                 "ThreadBroadcastChannel endpoints (2-3 nodes all broadcasting, or one broadcast receiver polling 1-2 plain "
-                "peers) under the same scheduler, judged by the broadcast oracle only. "
+                "peers) under the same scheduler, compared step by step with Net/Bcast.v and judged by the broadcast oracle. "
                 "A case = (configuration, executed access schedule); non-trivial if at least one message "
                 "was sent and the schedule switched threads at least twice; distinct = distinct (configuration, "
                 "access schedule).")
@@ -171,7 +171,9 @@ def run(ctx):
         "(nat<->int, JSON printing, breadth-first search over erased states keyed by MD5 of Marshal) — a sample of "
         "schedules is re-evaluated with vm_compute in Coq and compared",
         "harness/hub_sched.py: sys.settrace line-level scheduler, logging subclasses of set/dict/list/defaultdict "
-        "substituted for the hub's containers, cooperative lock substituted for threading.Lock, sleep patched to yield",
+        "substituted for the hub's containers; every blocking primitive the hub modules can name (Lock/RLock/Event/"
+        "Condition/Semaphore, sleep, the threading and time modules) replaced in their namespaces by schedulable versions; "
+        "wall-clock watchdog per resume, SIGALRM deadline for the whole check",
         "harness/hub_common.py: configuration generator, canonicaliser, oracle",
     ]
     ctx.assume += [
@@ -183,7 +185,11 @@ def run(ctx):
         "explicit disconnect op; reset_socket_hub is not used while threads run",
         "messages are distinct per configuration; the model treats payloads as opaque numbers (the harness maps them "
         "to strings incl. falsy ones and back)",
-        "broadcast-channel executions have no model counterpart: oracle on the implementation only",
+        "broadcast endpoints: the model (Net/Bcast.v) covers BroadcastChannelBySockets.__init__/send/recv(block=True, "
+        "timeout=None) and an explicit close of all sockets; its outcome sets are not enumerated (step-level "
+        "correspondence + oracle only)",
+        "a thread blocked in a wait the scheduler cannot see (un-patched blocking primitive) is taken off the schedule "
+        "by a 2.5 s wall-clock watchdog; such runs are not reproducible step by step",
     ]
     drv = hc.Driver(ctx)
     ctx.gen_obligation("extraction of Net/Hub.v and OCaml driver build", drv.ok, (drv.err or "")[-400:])
